@@ -13,8 +13,8 @@ EXPLANATION = ('Symbolic execution (llsym, 64-bit bit-vectors with wrap-around) 
                'byte region [A, A+narena) with symbolic base, every access through an arena pointer carries an in-region obligation. One inductive step '
                'covers operation sequences of any length. Concurrent reservations under threadlock: the only shared operation is one atomic fetch-add, '
                'so interleavings reduce to the order of the fetch-adds; two reservations are executed in solver-chosen order and must be disjoint.')
-BOUNDS = {'quick': {'size': 'any 64-bit', 'alignment': 'any power of two <= 4096', 'narena': '<= 2^40', 'arena base': '[4096, 2^47 - narena], 64-byte aligned', 'threads': 2},
-          'thorough': {'size': 'any 64-bit', 'alignment': 'any power of two <= 2^20', 'narena': '<= 2^44', 'threads': 3}}
+BOUNDS = {'quick': {'size': 'any 64-bit', 'alignment': 'any power of two <= 4096', 'narena': '<= 2^40', 'arena base': '[4096, 2^47 - narena], 64-byte aligned', 'threads': '2, alignment pairs (8,8) (1,64) (4096,16), all interleavings of the accesses to d->pstack'},
+          'thorough': {'size': 'any 64-bit', 'alignment': 'any power of two <= 2^20', 'narena': '<= 2^44', 'threads': '2 with 9 concrete alignment pairs, 3 with alignments (8,64,8); two threads with symbolic alignments time out and are not claimed'}}
 OUTSIDE = ('ASAN red-zone build (mjUSEASAN) of the allocator; weak-memory reorderings (sequential consistency assumed for the single atomic); '
            '"every public engine call returns with the stack pointer it started with" is asserted only in the harnesses that execute such calls (C17, C20).')
 ASSUMPTIONS = ['representation invariant: parena + pstack <= narena, arena base + narena does not wrap and lies in user address space, arena base 64-byte aligned (mju_malloc contract), pbase is 0 or the address of a frame inside the live stack whose saved top lies above it',
@@ -377,5 +377,8 @@ def units(tier):
         u.append(('threadlock_2_al%d_%d' % (a, b), 'unit_threadlock', {'nthreads': 2, 'al_fixed': (a, b)}))
     if tier == 'thorough':
         u += [('stack_byte_symbolic_al', 'unit_stack', {'fn': 'mj_stackAllocByte', 'maxlog': 20}), ('arena_al20', 'unit_arena', {'maxlog': 20}),
-              ('threadlock_2_symbolic_al', 'unit_threadlock', {'nthreads': 2}), ('threadlock_3', 'unit_threadlock', {'nthreads': 3, 'al_fixed': (8, 64, 8)})]
+              ('threadlock_3', 'unit_threadlock', {'nthreads': 3, 'al_fixed': (8, 64, 8)})]
+        # two threads with SYMBOLIC power-of-two alignments: the 64-bit queries time out (200 s each), so the thorough tier sweeps concrete alignment pairs instead
+        for a, b in [(1, 1), (8, 64), (64, 8), (16, 4096), (4096, 4096), (2, 1024)]:
+            u.append(('threadlock_2_al%d_%d' % (a, b), 'unit_threadlock', {'nthreads': 2, 'al_fixed': (a, b)}))
     return u
